@@ -798,8 +798,12 @@ func (config *Config) resolve() (changedFields set.Set[string], err error) {
 	// expected and "raw" parameters, which may be used by plugins.
 	nameToSource := make(map[string]Source)
 	for _, source := range SourcesInDescendingOrder {
+		// Visit the keys in sorted order so that, if one source has several spellings of
+		// the same (case-insensitive) name, the winner doesn't depend on map iteration order.
+		rawConfig := config.sourceToRawConfig[source]
 	valueLoop:
-		for rawName, rawValue := range config.sourceToRawConfig[source] {
+		for _, rawName := range slices.Sorted(maps.Keys(rawConfig)) {
+			rawValue := rawConfig[rawName]
 			lowerCaseName := strings.ToLower(rawName)
 			currentSource := nameToSource[lowerCaseName]
 			param, ok := knownParams[lowerCaseName]
